@@ -27,7 +27,7 @@ CHECKS = {
     },
     "C10": {
         "level": "exploration",
-        "legs": [("ndf", "C10")],
+        "legs": [("ndf", "C10"), ("ndf", "C10"), ("ndf", "C10"), ("multi", "C10")],
         "quick": {"runs": 12000, "wall": 70},
         "thorough": {"runs": 400000, "wall": 1500},
     },
@@ -50,6 +50,12 @@ CHECKS = {
         "quick": {"runs": 640, "wall": 75},
         "thorough": {"runs": 60000, "wall": 1800},
     },
+    "C11": {
+        "level": "exploration",
+        "legs": [("multi", "C11")],
+        "quick": {"runs": 3000, "wall": 75},
+        "thorough": {"runs": 100000, "wall": 1800},
+    },
 }
 
 
@@ -59,6 +65,20 @@ def leg_of(check, i):
 
 
 EVIDENCE_TEXT = {
+    "C11": {
+        "rule": "each run = 1-3 member fits (xy / indexed with chi2-type costs, histogram and unbinned with nll; overlapping parameter names) + one MultiFit, then "
+                "a seeded list of operations issued at the multi-fit OR at a member: set / set_all / fix / release, add_error(fits = i | [i, j] | 'all'), member-level "
+                "and multi-level constraints, do_fit on the multi-fit, reads on every party, gc. After EVERY operation: (I1) every shared parameter holds one common "
+                "value in the multi-fit and in all members (==); (I2) multi cost == sum of the costs the members report, or, with a source shared on the y axis, the "
+                "closed-form joint chi2 whose covariance carries the shared matrix in every diagonal and off-diagonal block between the sharing members; (I3) a "
+                "multi-fit of one fit reproduces that fit's do_fit; (I4) after multi.do_fit members report the sub-blocks of the multi-fit result (==). "
+                "non-trivial = >=2 operations after construction.",
+        "states_measure": "distinct (last operation, #shared sources, fitted?, fixed set, stale bits of the multi-fit graph) tuples",
+        "assumptions": ["member-level operations are generated only after the multi-fit exists (constructing a MultiFit re-initialises the members' fitters)",
+                        "shared sources: y axis, absolute, simple, between xy / indexed members of equal size (x-axis and data-relative shared sources are not generated)",
+                        "cost invariants are skipped while a member total or the joint covariance is outside the PD, cond<=1e7 domain",
+                        "open finding F-C11-1 (member constraints dropped with a shared source) is matched by a semantic tag; such configurations are generated in 1/3 of the sharing runs"],
+    },
     "C08": {
         "rule": "each run = one fitted problem (xy / indexed / histogram / unbinned stratified; iminuit and scipy; sources incl. x-errors, correlations and "
                 "model-referenced ones; optional constraint, fixed parameter, wide limits; optimum interior) followed by a seeded sequence with repetition of post-fit "
